@@ -129,7 +129,10 @@ def pop_of_model(model):
 
 
 def random_ip(rng, pop, zero_sources=False):
-    ip = {"xi": f32(rng.uniform(-1.5, 1.5)), "tau": f32(rng.uniform(40, 100))}
+    # mostly ordinary progressors, sometimes a very fast or very slow one (several prior standard deviations out): legitimate
+    r = rng.random()
+    xi = rng.uniform(-1.5, 1.5) if r < 0.7 else (rng.uniform(1.5, 4.5) if r < 0.85 else rng.uniform(-4.5, -1.5))
+    ip = {"xi": f32(xi), "tau": f32(rng.uniform(40, 100))}
     if pop["ns"] > 0:
         ip["sources"] = [0.0 if zero_sources else f32(rng.uniform(-2, 2)) for _ in range(pop["ns"])]
     return ip
